@@ -2,3 +2,4 @@ SPECIFICATION Spec
 INVARIANT WellFormed
 INVARIANT ArrayOK
 CHECK_DEADLOCK FALSE
+INVARIANT SweepOK
